@@ -17,42 +17,57 @@ ASSUMPTIONS = ["single thread (threads are C17)", "a behaviour is the finite unf
 
 def gen_case(rng):
     nt = rng.choice([1, 1, 2, 2, 3])
-    profile = rng.choice(["plain", "plain", "mixed", "mixed", "optin"])
+    profile = rng.choice(["plain", "plain", "mixed", "mixed", "optin", "escape", "escape"])
+    # "escape": propagated handler exceptions leave nested emissions / regions and are caught further out, by a running handler or at top level
+    escape = profile == "escape"
+    if escape:
+        profile = rng.choice(["mixed", "optin"])
     tracers = []
     for _ in range(nt):
         allow = {"plain": False, "mixed": rng.random() < 0.4, "optin": rng.random() < 0.8}[profile]
         nh = rng.choice([1, 1, 2, 3])
         hs = [{"plain": False, "mixed": rng.random() < 0.4, "optin": rng.random() < 0.8}[profile] for _ in range(nh)]
-        tracers.append({"allow_re": allow, "propagate": rng.random() < 0.25, "handlers": hs, "multi": rng.random() < 0.5})
+        tracers.append({"allow_re": allow, "propagate": rng.random() < (0.8 if escape else 0.25), "handlers": hs, "multi": rng.random() < 0.5})
     ids = [0]
     budget = [rng.choice([4, 8, 14])]
 
-    def acts(depth):
+    def acts(depth, caught=False):
         out = []
-        for _ in range(rng.choice([0, 1, 1, 2]) if depth < 4 else 0):
+        for _ in range(rng.choice([0, 1, 1, 2] if not escape else [1, 2, 2, 3]) if depth < 4 else 0):
             if budget[0] <= 0:
                 break
             r = rng.random()
-            if r < 0.6:
-                out.append(em(depth + 1))
+            if r < (0.6 if not escape else 0.45):
+                out.append(em(depth + 1, caught))
             elif r < 0.8 and profile != "plain":
-                out.append({"k": "region", "acts": acts(depth + 1)})
+                out.append({"k": "region", "acts": acts(depth + 1, caught)})
             else:
-                out.append({"k": "catch", "acts": acts(depth + 1)})
+                out.append({"k": "catch", "acts": acts(depth + 1, True)})
         return out
 
-    def em(depth):
+    def em(depth, caught=False):
         budget[0] -= 1
         ts = []
         for t in tracers:
             hs = []
             for _ in t["handlers"]:
                 ids[0] += 1
-                hs.append({"id": ids[0], "acts": acts(depth), "raises": rng.random() < 0.15, "ctl": rng.choice([0, 0, 0, 0, 1, 2])})
+                hs.append({"id": ids[0], "acts": acts(depth), "raises": rng.random() < (0.5 if escape and caught else 0.15), "ctl": rng.choice([0, 0, 0, 0, 1, 2])})
             ts.append(hs)
         return {"k": "em", "tracers": ts}
 
-    tops = [em(0) for _ in range(rng.choice([1, 2, 3]))]
+    def top():
+        # top-level program statements: an instrumented statement, or a region / try block around further statements
+        r = rng.random()
+        if r < (0.7 if not escape else 0.4):
+            return em(0)
+        if r < 0.85 and profile != "plain":
+            return {"k": "region", "acts": acts(0)}
+        return {"k": "catch", "acts": acts(0, True)}
+
+    if escape:
+        budget[0] += 8
+    tops = [top() for _ in range(rng.choice([1, 2, 3] if not escape else [2, 3, 4]))]
     return {"tracers": tracers, "tops": tops, "worker": rng.random() < 0.3}
 
 
@@ -198,10 +213,15 @@ def run(ctx, model_ok):
     return {
         "evaluations": len(cases),
         "distinct_nontrivial": len({lib.digest(c) for c, im in zip(cases, impl) if sum(count_ems(t) for t in c["tops"]) >= 2}),
-        "rule": "random behaviour trees: 1-3 tracers x 1-3 handlers, 1-3 top-level emissions, nested emissions/regions/try-except up to depth 4, "
-                "raises 15%, Skip/SkipAll, propagating tracers 25%, three opt-in profiles (none / mixed / mostly on); non-trivial = >=2 emissions; distinct by sha1",
+        "rule": "random behaviour trees: 1-3 tracers x 1-3 handlers, 1-4 top-level statements (an emission, a region or a try block around further "
+                "statements), nested emissions/regions/try-except up to depth 4, raises 15%, Skip/SkipAll, propagating tracers 25%, three opt-in profiles (none / mixed / "
+                "mostly on) plus an 'escape' profile (propagating tracers 80%, handlers under a try raise 50%: exceptions leave nested emissions and regions and are "
+                "caught by a running handler or at top level, which goes on to run instrumented code); non-trivial = >=2 emissions; distinct by sha1",
         "samples": [cases[0]], "traces_validated": validated,
-        "distribution": {"emissions": ems, "max_handler_nesting_depth_histogram": maxd},
+        "distribution": {"emissions": ems, "max_handler_nesting_depth_histogram": maxd,
+                         "top_level_statements_left_by_exception": sum(sum(im.get("raised", [])) for im in impl),
+                         "top_level_kinds": {k: sum(1 for c in cases for t in c["tops"] if t["k"] == k) for k in ("em", "region", "catch")},
+                         "nested_invocations": sum(1 for im in impl for x in im.get("log", []) if x[0] >= 1)},
         "failures": failures, "extra": {"model_impl_disagreements": len(mism)},
     }
 
